@@ -382,7 +382,14 @@ def run(key, prop, tier, seed, binary, wd):
             nviol += 1
         for n in sorted(set(rep["notes"]))[:10]:
             log(f"NOTE [{kind}] {n}")
-        ncorrupt += selftest_table(binary, kind, files[kind], wd, seed)
+        try:
+            ncorrupt += selftest_table(binary, kind, files[kind], wd, seed)
+        except Indeterminate as ex:
+            if not nviol:
+                raise
+            # violations were reproduced on the real code; the self-test needs rows the implementation decides as the
+            # specification says, and a tree that breaks the property may decide exactly the chosen rows differently
+            log(f"[selftest] skipped on a violating tree: {ex}")
         parts.append({"kind": kind, "rows_in_spec_table": full, "rows_executed": rep["executed"], "comparisons": rep["checks"],
                       "mismatching_rows": len(rep["mismatches"]), "complete": full == rep["executed"]})
         log(f"[table] {kind}: {rep['executed']}/{full} rows executed, {rep['checks']} comparisons, {len(rep['mismatches'])} mismatches")
